@@ -5,7 +5,9 @@ import (
 	"errors"
 	"fmt"
 	"io"
+	"net"
 	"os"
+	"syscall"
 	"testing"
 
 	"pgregory.net/rapid"
@@ -47,6 +49,22 @@ func checkC08(c caseC08) (sig, msg string) {
 		injected = io.ErrNoProgress
 	case "SHORTBUF":
 		injected = io.ErrShortBuffer
+	case "NETCLOSED":
+		injected = net.ErrClosed
+	case "OPERR":
+		injected = &net.OpError{Op: "read", Net: "tcp", Err: &timeoutError{id: c.Cut}}
+	case "WRAPNET":
+		// an adapter layer's error that wraps a net.Error: E itself is what
+		// errors.Is must find, not the net.Error inside it
+		injected = fmt.Errorf("ws bridge: %w", &net.OpError{Op: "read", Net: "tcp", Err: syscall.ECONNRESET})
+	case "WRAPCLOSED":
+		injected = fmt.Errorf("session 7: %w", net.ErrClosed)
+	case "JOINED":
+		injected = errors.Join(&guard.InjectedError{ID: c.Cut + 1}, io.ErrClosedPipe)
+	case "ERRNO":
+		injected = syscall.ECONNRESET
+	case "CUSTOMIS":
+		injected = &pickyError{id: c.Cut}
 	}
 	var fail error = io.EOF
 	if c.Failure != "EOF" {
@@ -106,6 +124,14 @@ func checkC08(c caseC08) (sig, msg string) {
 	}
 	return "", ""
 }
+
+// pickyError has its own Is method and unwraps to io.EOF: a value for which
+// errors.Is(x, io.EOF) is true although it is a failure of its own.
+type pickyError struct{ id int }
+
+func (e *pickyError) Error() string        { return fmt.Sprintf("picky #%d", e.id) }
+func (e *pickyError) Unwrap() error        { return io.EOF }
+func (e *pickyError) Is(target error) bool { return target == e }
 
 // timeoutError is a net.Error-like transport failure: temporary, timed out.
 type timeoutError struct{ id int }
@@ -178,7 +204,7 @@ func TestC08(t *testing.T) {
 		}
 		for _, k := range cuts {
 			c := caseC08{Frame: frame, Cut: k}
-			c.Failure = rapid.SampledFrom([]string{"EOF", "EOF", "EOF", "X", "X", "X", "UEOF", "WUEOF", "WEOF", "TIMEOUT", "DEADLINE", "CLOSEDPIPE", "NOPROGRESS", "SHORTBUF"}).Draw(t, "failure")
+			c.Failure = rapid.SampledFrom([]string{"EOF", "EOF", "EOF", "EOF", "X", "X", "X", "UEOF", "WUEOF", "WEOF", "TIMEOUT", "DEADLINE", "CLOSEDPIPE", "NOPROGRESS", "SHORTBUF", "NETCLOSED", "OPERR", "WRAPNET", "WRAPCLOSED", "JOINED", "ERRNO", "CUSTOMIS"}).Draw(t, "failure")
 			c.NonSticky = c.Failure != "EOF" && rapid.IntRange(0, 2).Draw(t, "nonsticky") == 0
 			c.Together = k > 0 && rapid.Bool().Draw(t, "together")
 			c.Delivery = rapid.SampledFrom([]string{"contiguous", "bytewise", "chunks"}).Draw(t, "delivery")
